@@ -160,18 +160,31 @@ def forbidden_scan():
 # ---------------------------------------------------------------------------------------------
 # workers
 
-def run_workers(pid, tier, seed, workdir, timeout):
+def consumer_interpreters():
+    out = []
+    for mm in CONSUMERS:
+        p = find_python(mm)
+        if p:
+            out.append((mm, mm.replace(".", ""), p))
+    return out
+
+
+def run_workers(pid, tier, seed, workdir, timeout, phase=None, with_consumers=False):
     os.makedirs(workdir, exist_ok=True)
-    interps = interpreters()
+    interps = interpreters() + (consumer_interpreters() if with_consumers else [])
     results = {}
 
     def one(item):
         mm, tag, py = item
-        outfile = os.path.join(workdir, "worker_%s_%s.json" % (pid, tag))
+        outfile = os.path.join(workdir, "worker_%s_%s%s.json" % (pid, tag, "_" + phase if phase else ""))
         if os.path.exists(outfile):
             os.remove(outfile)
+        env = worker_env()
+        env["VERIF_WORKDIR"] = workdir
+        if phase:
+            env["VERIF_PHASE"] = phase
         rc, out, dt = run([py, os.path.join(HARNESS, "worker.py"), pid, tier, str(seed), outfile],
-                          timeout, env=worker_env(), cwd=HARNESS)
+                          timeout, env=env, cwd=HARNESS)
         if not os.path.exists(outfile):
             return tag, {"status": "crash", "error": out[-3000:], "python": mm, "cases": [],
                          "violations": [], "counters": {}, "samples": [], "evaluations": 0,
@@ -193,6 +206,13 @@ def run_workers(pid, tier, seed, workdir, timeout):
 INT_RE = re.compile(r"-?\d+")
 
 
+def cfg_tag(tag):
+    """the Gen.Cfg module a worker's cases are evaluated with (consumer interpreters have none: any will do,
+    their cases use only version-free model functions)"""
+    t = tag.split(":")[0]
+    return t if t in ("37", "38", "39", "310") else "310"
+
+
 def case_files(pid, tag, cases, imports, prelude):
     files = []
     cur, size = [], 0
@@ -209,9 +229,9 @@ def case_files(pid, tag, cases, imports, prelude):
         files.append(cur)
     out = []
     for k, chunk in enumerate(files):
-        name = "Cases_%s_%s_%d" % (pid, tag, k)
-        text = ["From PCD Require Import Base.PyBase Base.Ser %s.\n" % imports.replace("{TAG}", tag),
-                "Open Scope Z_scope.\n", prelude.replace("{TAG}", tag) + "\n"]
+        name = "Cases_%s_%s_%d" % (pid, tag.replace(":", "_"), k)
+        text = ["From PCD Require Import Base.PyBase Base.Ser %s.\n" % imports.replace("{TAG}", cfg_tag(tag)),
+                "Open Scope Z_scope.\n", prelude.replace("{TAG}", cfg_tag(tag)) + "\n"]
         text += [l for _, l in chunk]
         text.append("Definition all_cases := [%s].\n" % "; ".join("c%d" % i for i, _ in chunk))
         text.append("Set Printing Depth 10000000.\nSet Printing Width 200.\n")
